@@ -37,7 +37,8 @@ class C02(core.Prop):
         'lengths, shared sub-results, multi-output getters, state loaders): apply-mode tables run on the reference '
         'interpreter, on pyfunc.Expression (called twice) and on dask under the synchronous and threads schedulers '
         '(+ processes in the thorough tier); train-mode tables on the reference interpreter and dask. The sink records what it '
-        'receives into a file. The pyfunc model must predict value or crash of both calls exactly. Non-trivial = a table '
+        'receives into a file. Half of the apply-mode tables with two stateful groups of equal arity build both groups from '
+        'ONE builder object, each persistent with its own stored state. The pyfunc model must predict value or crash of both calls exactly. Non-trivial = a table '
         'with a shared instruction (>= 2 consumers) or a getter.'
     )
     ASSUMPTIONS = [
@@ -101,6 +102,26 @@ class C02(core.Prop):
                                         for i in reps if rng.random() < 0.7}
                 else:
                     case['persistent'], case['previous'] = None, {}
+                groups = {}
+                for i, d in enumerate(nodes):
+                    if d['stateful']:
+                        groups.setdefault((d['szout'],), {}).setdefault(d['gid'], []).append(i)
+                twins = [g for g in groups.values() if len(g) >= 2]
+                if twins and rng.random() < 0.5:
+                    # two worker groups built from ONE builder object, each persistent with its own stored state
+                    g1, g2 = rng.sample(sorted(rng.choice(twins)), 2)
+                    proto = nodes[next(i for i, d in enumerate(nodes) if d['gid'] == g1)]
+                    for d in nodes:
+                        if d['gid'] == g2:
+                            d['name'], d['hp'] = proto['name'], proto.get('hp', 0)
+                    reps = [next(i for i, d in enumerate(nodes) if d['gid'] == g) for g in (g1, g2)]
+                    others = [i for i in (case['persistent'] or []) if nodes[i]['gid'] not in (g1, g2)]
+                    case['persistent'] = others + reps
+                    rng.shuffle(case['persistent'])
+                    case['previous'] = {k: v for k, v in case['previous'].items() if int(k) in others}
+                    case['previous'][str(reps[0])] = ['state', proto['name'], proto.get('hp', 0), None, c01mod.ATOM_P, c01mod.ATOM_Q]
+                    case['previous'][str(reps[1])] = ['state', proto['name'], proto.get('hp', 0), None, c01mod.ATOM_Q, c01mod.ATOM_P]
+                    case['share'] = True
             if rng.random() < 0.7:
                 # a single-consumer head (the head fan-out defect of pyfunc would otherwise mask everything behind it)
                 nodes = [{'gid': 20_000, 'name': 'src', 'stateful': False, 'szin': 0, 'szout': 1, 'inputs': []}]
